@@ -90,7 +90,8 @@ class Verdict:
             if key in seen:
                 continue
             seen.add(key)
-            if len(seen) > 20:
+            if len(seen) > 8:
+                print(f"  ... and more violations of {self.prop} (total recorded: {len(self.violations)})")
                 break
             os.makedirs(rdir, exist_ok=True)
             safe = "".join(c if c.isalnum() or c in "-_.=" else "_" for c in key)[:120]
